@@ -35,6 +35,10 @@ impl<'a> WireFormat<'a> for WKS<'a> {
     where
         Self: Sized,
     {
+        if *position + 5 > data.len() {
+            return Err(crate::SimpleDnsError::InsufficientData);
+        }
+
         let address = u32::from_be_bytes(data[*position..*position + 4].try_into()?);
         let protocol = data[*position + 4];
         let bit_map = Cow::Borrowed(&data[*position + 5..]);
